@@ -121,9 +121,13 @@ def random_case(draw, tier):
     maxdim = 12
     if tier == "thorough" and draw(st.integers(0, 9)) == 0:
         maxdim = 40
-    c = draw(G.random_grid(maxdim, kinds=("forest", "forest", "forest",
-                                          "forest", "majority", "majority",
-                                          "uniform")))
+    if draw(st.integers(0, 5)) == 0:
+        from vf.props.c06 import convergent_grid
+        c = draw(convergent_grid())
+    else:
+        c = draw(G.random_grid(maxdim, kinds=("forest", "forest", "forest",
+                                              "forest", "majority",
+                                              "majority", "uniform")))
     n = c["shape"][0] * c["shape"][1]
     kind = draw(st.sampled_from(["none", "const", "positive", "positive",
                                  "signed", "signed", "int", "int"]))
